@@ -19,9 +19,192 @@ Proof.
       * split; [intros _; apply IH; reflexivity|reflexivity].
 Qed.
 
+Lemma has_sub_cons nd c s : has_sub nd (c :: s) = starts_with nd (c :: s) || has_sub nd s.
+Proof. reflexivity. Qed.
+
+Lemma has_sub_nil nd : nd <> [] -> has_sub nd [] = false.
+Proof. destruct nd; [congruence|reflexivity]. Qed.
+
+(* a prefix test that succeeds on a succeeds on a ++ b; one that is decided inside a is not changed
+   by appending b *)
+Lemma starts_with_ext nd a b : starts_with nd a = true -> starts_with nd (a ++ b) = true.
+Proof.
+  revert a; induction nd as [|x nd IH]; intros a H; [reflexivity|].
+  destruct a as [|c a]; [discriminate|]. cbn [starts_with app] in *.
+  apply andb_true_iff in H. destruct H as [H1 H2]. rewrite H1, (IH _ H2). reflexivity.
+Qed.
+
+Lemma starts_with_short nd a : (length a < length nd)%nat -> starts_with nd a = false.
+Proof.
+  revert a; induction nd as [|x nd IH]; intros a H; cbn [length] in H; [lia|].
+  destruct a as [|c a]; [reflexivity|]. cbn [starts_with length] in *.
+  rewrite IH by lia. apply andb_false_r.
+Qed.
+
+Lemma starts_with_long nd a b : (length nd <= length a)%nat -> starts_with nd (a ++ b) = starts_with nd a.
+Proof.
+  revert a; induction nd as [|x nd IH]; intros a H; [reflexivity|].
+  destruct a as [|c a]; cbn [length] in H; [lia|]. cbn [starts_with app].
+  rewrite IH by lia. reflexivity.
+Qed.
+
+(* a is not a prefix of nd: the comparison of nd with a ++ r is decided inside a *)
+Lemma starts_with_decided nd : forall a r, starts_with a nd = false -> starts_with nd (a ++ r) = starts_with nd a.
+Proof.
+  induction nd as [|x nd IH]; intros a r H; [reflexivity|].
+  destruct a as [|c a]; [discriminate|]. cbn [starts_with app] in *.
+  destruct (c =? x) eqn:E.
+  - apply N.eqb_eq in E. subst c. rewrite N.eqb_refl in *. cbn [andb] in *. apply IH. exact H.
+  - rewrite N.eqb_sym, E. reflexivity.
+Qed.
+
+(* an occurrence of nd that starts inside a (non-empty, shorter than nd) and runs into b: the last
+   byte of a is one of the bytes of nd but its last, the first byte of b is one of nd but its first *)
+Lemma straddle_last nd : forall a b,
+  starts_with nd (a ++ b) = true -> a <> [] -> (length a < length nd)%nat -> In (last a 0) (removelast nd).
+Proof.
+  induction nd as [|x nd IH]; intros a b H Ha Hl; cbn [length] in Hl; [lia|].
+  destruct a as [|c a]; [congruence|]. cbn [starts_with app length] in *.
+  apply andb_true_iff in H. destruct H as [Hx H]. apply N.eqb_eq in Hx. subst c.
+  destruct nd as [|y nd]; [cbn [length] in Hl; lia|].
+  change (removelast (x :: y :: nd)) with (x :: removelast (y :: nd)).
+  destruct a as [|c a]; [left; reflexivity|].
+  right. change (last (x :: c :: a) 0) with (last (c :: a) 0).
+  apply (IH (c :: a) b H); [discriminate|cbn [length] in *; lia].
+Qed.
+
+Lemma straddle_hd nd : forall a b,
+  starts_with nd (a ++ b) = true -> a <> [] -> (length a < length nd)%nat ->
+  exists y b', b = y :: b' /\ In y (tl nd).
+Proof.
+  induction nd as [|x nd IH]; intros a b H Ha Hl; cbn [length] in Hl; [lia|].
+  destruct a as [|c a]; [congruence|]. cbn [starts_with app length tl] in *.
+  apply andb_true_iff in H. destruct H as [_ H].
+  destruct a as [|c' a].
+  - cbn [app] in H. destruct nd as [|y nd]; [cbn [length] in Hl; lia|].
+    destruct b as [|z b]; [discriminate|]. cbn [starts_with] in H.
+    apply andb_true_iff in H. destruct H as [Hy _]. apply N.eqb_eq in Hy. subst z.
+    exists y, b. split; [reflexivity|left; reflexivity].
+  - destruct (IH (c' :: a) b H) as (y & b' & -> & Hy); [discriminate|cbn [length] in *; lia|].
+    exists y, b'. split; [reflexivity|]. destruct nd as [|z nd]; [destruct Hy|]. right. exact Hy.
+Qed.
+
+(* nostr nd a b: no occurrence of nd starts inside a and runs into b *)
+Definition nostr (nd a b : bytes) : Prop :=
+  forall x y, a = x ++ y -> y <> [] -> starts_with nd (y ++ b) = starts_with nd y.
+
+Lemma nostr_tail nd c a b : nostr nd (c :: a) b -> nostr nd a b.
+Proof. intros H x y E Hy. apply (H (c :: x) y); [rewrite E; reflexivity|exact Hy]. Qed.
+
+Lemma nostr_head nd c a b : nostr nd (c :: a) b -> starts_with nd (c :: a ++ b) = starts_with nd (c :: a).
+Proof. intro H. apply (H [] (c :: a)); [reflexivity|discriminate]. Qed.
+
+Lemma last_suffix (x y : bytes) d : y <> [] -> last (x ++ y) d = last y d.
+Proof.
+  intro Hy. induction x as [|c x IH]; [reflexivity|].
+  cbn [app]. destruct (x ++ y) eqn:E; [destruct x; [cbn in E; congruence|discriminate]|].
+  cbn [last]. exact IH.
+Qed.
+
+Lemma nostr_by_last nd a b : a <> [] -> ~ In (last a 0) (removelast nd) -> nostr nd a b.
+Proof.
+  intros Ha Hl x y E Hy.
+  destruct (Nat.le_gt_cases (length nd) (length y)) as [Hlen|Hlen].
+  - apply starts_with_long. exact Hlen.
+  - rewrite (starts_with_short nd y Hlen).
+    destruct (starts_with nd (y ++ b)) eqn:Hs; [|reflexivity].
+    exfalso. apply Hl. rewrite E, (last_suffix x y 0 Hy).
+    apply (straddle_last nd y b Hs Hy Hlen).
+Qed.
+
+Lemma nostr_by_hd nd a b : (forall y b', b = y :: b' -> ~ In y (tl nd)) -> nostr nd a b.
+Proof.
+  intros Hb x y E Hy.
+  destruct (Nat.le_gt_cases (length nd) (length y)) as [Hlen|Hlen].
+  - apply starts_with_long. exact Hlen.
+  - rewrite (starts_with_short nd y Hlen).
+    destruct (starts_with nd (y ++ b)) eqn:Hs; [|reflexivity].
+    exfalso. destruct (straddle_hd nd y b Hs Hy Hlen) as (z & b' & Eb & Hz).
+    exact (Hb z b' Eb Hz).
+Qed.
+
+Lemma has_sub_app nd a b : nd <> [] -> nostr nd a b -> has_sub nd (a ++ b) = has_sub nd a || has_sub nd b.
+Proof.
+  intros Hnd. induction a as [|c a IH]; intro Hn.
+  - cbn [app]. rewrite (has_sub_nil nd Hnd). reflexivity.
+  - cbn [app]. rewrite !has_sub_cons, (nostr_head _ _ _ _ Hn), (IH (nostr_tail _ _ _ _ Hn)).
+    rewrite orb_assoc. reflexivity.
+Qed.
+
+Lemma find_sub_app nd a b :
+  nd <> [] -> nostr nd a b -> has_sub nd a = false ->
+  find_sub nd (a ++ b) = match find_sub nd b with Some (x, y) => Some (a ++ x, y) | None => None end.
+Proof.
+  intros Hnd. induction a as [|c a IH]; intros Hn Ha.
+  - cbn [app]. destruct (find_sub nd b) as [[x y]|]; reflexivity.
+  - rewrite has_sub_cons in Ha. apply orb_false_iff in Ha. destruct Ha as [Hc Ha].
+    cbn [app find_sub]. rewrite (nostr_head _ _ _ _ Hn), Hc, (IH (nostr_tail _ _ _ _ Hn) Ha).
+    destruct (find_sub nd b) as [[x y]|]; reflexivity.
+Qed.
+
+Lemma has_sub_app_false nd a b : has_sub nd (a ++ b) = false -> has_sub nd a = false /\ has_sub nd b = false.
+Proof.
+  induction a as [|c a IH]; intro H.
+  - cbn [app] in H. split; [|exact H]. cbn [has_sub]. destruct (starts_with nd []) eqn:E; [|reflexivity].
+    pose proof (starts_with_ext nd [] b E) as E2. cbn [app] in E2.
+    destruct b; cbn [has_sub] in H; rewrite E2 in H; discriminate.
+  - cbn [app] in H. rewrite has_sub_cons in H. apply orb_false_iff in H. destruct H as [Hc H].
+    destruct (IH H) as [Ha Hb]. split; [|exact Hb]. rewrite has_sub_cons, Ha.
+    destruct (starts_with nd (c :: a)) eqn:E; [|reflexivity].
+    pose proof (starts_with_ext nd (c :: a) b E) as E2. cbn [app] in E2. rewrite E2 in Hc. discriminate.
+Qed.
+
+(* what strstr returns *)
+Lemma find_sub_some nd s before at_ :
+  nd <> [] -> find_sub nd s = Some (before, at_) ->
+  s = before ++ at_ /\ has_sub nd before = false /\ starts_with nd at_ = true.
+Proof.
+  intro Hnd. revert before. induction s as [|c s IH]; intros before H.
+  - cbn [find_sub] in H. destruct (starts_with nd []) eqn:E; [|discriminate].
+    inversion H; subst. repeat split; [apply has_sub_nil; exact Hnd|exact E].
+  - cbn [find_sub] in H. destruct (starts_with nd (c :: s)) eqn:E.
+    + inversion H; subst. repeat split; [apply has_sub_nil; exact Hnd|exact E].
+    + destruct (find_sub nd s) as [[b a]|] eqn:F; [|discriminate]. inversion H; subst.
+      destruct (IH b eq_refl) as (Hs & Hb & Ha). subst s. repeat split; [|exact Ha].
+      rewrite has_sub_cons, Hb. destruct (starts_with nd (c :: b)) eqn:E2; [|reflexivity].
+      pose proof (starts_with_ext nd (c :: b) at_ E2) as E3. cbn [app] in E3. rewrite E3 in E. discriminate.
+Qed.
+
+Lemma after_char_some ch s rest : after_char ch s = Some rest -> exists mid, s = mid ++ ch :: rest.
+Proof.
+  revert rest. induction s as [|c s IH]; intros rest H; [discriminate|].
+  cbn [after_char] in H. destruct (c =? ch) eqn:E.
+  - apply N.eqb_eq in E. inversion H; subst. exists []. reflexivity.
+  - destruct (IH _ H) as [mid ->]. exists (c :: mid). reflexivity.
+Qed.
+
+Lemma after_char_app ch l r : forallb (fun c => negb (c =? ch)) l = true -> after_char ch (l ++ ch :: r) = Some r.
+Proof.
+  induction l as [|c l IH]; intro H.
+  - cbn [app after_char]. rewrite N.eqb_refl. reflexivity.
+  - cbn [forallb] in H. apply andb_true_iff in H. destruct H as [Hc H].
+    cbn [app after_char]. apply negb_true_iff in Hc. rewrite Hc. apply IH. exact H.
+Qed.
+
+Lemma before_char_app ch l r : forallb (fun c => negb (c =? ch)) l = true -> before_char ch (l ++ ch :: r) = l.
+Proof.
+  induction l as [|c l IH]; intro H.
+  - cbn [app before_char]. rewrite N.eqb_refl. reflexivity.
+  - cbn [forallb] in H. apply andb_true_iff in H. destruct H as [Hc H].
+    cbn [app before_char]. apply negb_true_iff in Hc. rewrite Hc, (IH H). reflexivity.
+Qed.
+
 (* ---- single steps of esc_pass ------------------------------------------------------------------ *)
 Lemma anchor_cases c : is_anchor c = true -> c = 36 \/ c = 94.
 Proof. unfold is_anchor. lia. Qed.
+
+Lemma bind_ok {A B} (r : res A) (f : A -> res B) v : bind r f = Ok v -> exists u, r = Ok u /\ f u = Ok v.
+Proof. destruct r as [u|e]; cbn [bind]; [intro H; exists u; split; [reflexivity|exact H]|discriminate]. Qed.
 
 Lemma esc_plain brack c tail o :
   c <> 92 -> c <> 91 -> c <> 93 -> (is_anchor c = false \/ brack <> 0) ->
@@ -44,20 +227,20 @@ Proof.
   rewrite H92, Ht. reflexivity.
 Qed.
 
-(* a backslash and the byte after it, where that byte is not an anchor outside brackets *)
+(* a backslash and the byte after it, whatever that byte is (an escaped '^' / '$' gets no second
+   backslash, an escaped bracket is not counted) *)
 Lemma esc_pair brack x tail o :
-  (is_anchor x = false \/ brack <> 0) ->
   esc_pass brack false tail = Ok o ->
   esc_pass brack false (92 :: x :: tail) = Ok (92 :: x :: o).
 Proof.
-  intros Ha Ht. cbn [esc_pass]. change (92 =? 92) with true. cbn [negb].
+  intros Ht. cbn [esc_pass]. change (92 =? 92) with true. cbn [negb].
   destruct (x =? 92) eqn:H92.
   - apply N.eqb_eq in H92. subst x. cbn [negb]. rewrite Ht. reflexivity.
   - destruct (is_anchor x) eqn:Hanc.
-    + destruct Ha as [Ha|Ha]; [discriminate|]. apply N.eqb_neq in Ha. rewrite Ht. cbn [bind]. rewrite Ha. reflexivity.
+    + rewrite Ht. cbn [bind negb]. rewrite andb_false_r. reflexivity.
     + destruct (x =? 91) eqn:H91; [rewrite Ht; reflexivity|].
       destruct (x =? 93) eqn:H93.
-      * rewrite andb_false_r. rewrite Ht. reflexivity.
+      * cbn [negb]. rewrite andb_false_r. rewrite Ht. reflexivity.
       * rewrite Ht. reflexivity.
 Qed.
 
@@ -72,6 +255,25 @@ Proof.
   intros Hb Ht. cbn [esc_pass]. change (93 =? 92) with false. change (is_anchor 93) with false.
   change (93 =? 91) with false. change (93 =? 93) with true.
   apply N.eqb_neq in Hb. rewrite Hb. cbn [andb]. rewrite Ht. reflexivity.
+Qed.
+
+(* the only error of the first pass is the stray ']' *)
+Lemma esc_pass_err p : forall brack escaped e, esc_pass brack escaped p = Err e -> e = 1.
+Proof.
+  induction p as [|c p IH]; intros brack escaped e H; [discriminate|].
+  cbn [esc_pass] in H.
+  destruct (c =? 92).
+  { destruct (esc_pass brack (negb escaped) p) eqn:E; [discriminate|]. cbn [bind] in H. inversion H; subst. exact (IH _ _ _ E). }
+  destruct (is_anchor c).
+  { destruct (esc_pass brack false p) eqn:E; [discriminate|]. cbn [bind] in H. inversion H; subst. exact (IH _ _ _ E). }
+  destruct (c =? 91).
+  { destruct (esc_pass (if escaped then brack else brack + 1) false p) eqn:E; [discriminate|].
+    cbn [bind] in H. inversion H; subst. exact (IH _ _ _ E). }
+  destruct (c =? 93).
+  { destruct ((brack =? 0) && negb escaped); [inversion H; reflexivity|].
+    destruct (esc_pass (if escaped then brack else brack - 1) false p) eqn:E; [discriminate|].
+    cbn [bind] in H. inversion H; subst. exact (IH _ _ _ E). }
+  destruct (esc_pass brack false p) eqn:E; [discriminate|]. cbn [bind] in H. inversion H; subst. exact (IH _ _ _ E).
 Qed.
 
 (* ---- patterns without '^' and '$' ---------------------------------------------------------------- *)
@@ -111,8 +313,8 @@ Qed.
 (* ---- patterns given as tokens -------------------------------------------------------------------- *)
 (* inside brackets: a byte other than backslash and brackets, or a backslash and any byte *)
 Inductive ctok : Type := CChar (c : N) | CEsc (x : N).
-(* outside brackets: an ordinary byte, an unescaped anchor, a backslash and a byte that is not an
-   anchor, or a bracket expression *)
+(* outside brackets: an ordinary byte, an unescaped anchor, a backslash and ANY byte (so also an
+   escaped anchor), or a bracket expression *)
 Inductive tok : Type := TChar (c : N) | TAnchor (c : N) | TEsc (x : N) | TClass (body : list ctok).
 
 Definition ctok_ok (t : ctok) : bool :=
@@ -125,7 +327,7 @@ Definition tok_ok (t : tok) : bool :=
   match t with
   | TChar c => negb (c =? 92) && negb (c =? 91) && negb (c =? 93) && negb (is_anchor c)
   | TAnchor c => is_anchor c
-  | TEsc x => negb (is_anchor x)
+  | TEsc _ => true
   | TClass body => forallb ctok_ok body
   end.
 
@@ -133,7 +335,7 @@ Definition render_ctok (t : ctok) : bytes :=
   match t with CChar c => [c] | CEsc x => [92; x] end.
 
 (* the pattern text of a token / the expected text after the rewrite: one backslash in front of
-   every anchor token, everything else unchanged *)
+   every (unescaped) anchor token, everything else unchanged *)
 Definition render (t : tok) : bytes :=
   match t with
   | TChar c => [c]
@@ -159,7 +361,7 @@ Proof.
   specialize (IH brack rest o Hok Hb Hr).
   destruct t as [c|x]; cbn [render_ctok app].
   - cbn [ctok_ok] in Ht. apply esc_plain; try lia. exact IH.
-  - apply esc_pair; [right; exact Hb|exact IH].
+  - apply esc_pair. exact IH.
 Qed.
 
 Lemma esc_tokens ts : forall rest o,
@@ -174,7 +376,7 @@ Proof.
   destruct t as [c|c|x|body]; cbn [render render_esc app tok_ok] in *.
   - apply esc_plain; try lia. exact IH.
   - apply esc_anchor0; assumption.
-  - apply esc_pair; [left; lia|exact IH].
+  - apply esc_pair. exact IH.
   - rewrite <- app_assoc. cbn [app]. apply esc_open. cbn [N.add].
     rewrite <- app_assoc. cbn [app].
     apply esc_class_body; [exact Ht|lia|].
@@ -202,7 +404,32 @@ Proof.
   apply ins_bs; [exact Ht|constructor].
 Qed.
 
+(* the first pass only inserts backslashes in front of anchors *)
+Lemma esc_pass_ins p : forall brack escaped q, esc_pass brack escaped p = Ok q -> ins p q.
+Proof.
+  induction p as [|c p IH]; intros brack escaped q H.
+  - inversion H. constructor.
+  - cbn [esc_pass] in H.
+    destruct (c =? 92) eqn:H92.
+    { apply bind_ok in H. destruct H as (u & Hu & Hq). inversion Hq; subst q.
+      apply N.eqb_eq in H92. subst c. constructor. exact (IH _ _ _ Hu). }
+    destruct (is_anchor c) eqn:Hanc.
+    { apply bind_ok in H. destruct H as (u & Hu & Hq).
+      destruct ((brack =? 0) && negb escaped); inversion Hq; subst q.
+      - apply ins_bs; [exact Hanc|exact (IH _ _ _ Hu)].
+      - constructor. exact (IH _ _ _ Hu). }
+    destruct (c =? 91).
+    { apply bind_ok in H. destruct H as (u & Hu & Hq). inversion Hq; subst q. constructor. exact (IH _ _ _ Hu). }
+    destruct (c =? 93).
+    { destruct ((brack =? 0) && negb escaped); [discriminate|].
+      apply bind_ok in H. destruct H as (u & Hu & Hq). inversion Hq; subst q. constructor. exact (IH _ _ _ Hu). }
+    apply bind_ok in H. destruct H as (u & Hu & Hq). inversion Hq; subst q. constructor. exact (IH _ _ _ Hu).
+Qed.
+
 (* a text without backslash and anchors is a prefix of p iff it is a prefix of o *)
+Definition plainb (x : N) : bool :=
+  negb (x =? 92) && negb (is_anchor x) && negb (x =? 91) && negb (x =? 93) && negb (x =? 125).
+
 Lemma ins_starts n : forall p o,
   ins p o -> (forall x, In x n -> x <> 92 /\ is_anchor x = false) ->
   starts_with n o = starts_with n p.
@@ -219,13 +446,16 @@ Proof.
     rewrite H, H0. reflexivity.
 Qed.
 
-Lemma needle_tail_plain : forall x, In x [112; 123; 73; 115] -> x <> 92 /\ is_anchor x = false.
+Lemma plain_list n : forallb plainb n = true -> forall x, In x n -> x <> 92 /\ is_anchor x = false.
 Proof.
-  intros x Hx. cbn [In] in Hx. unfold is_anchor.
-  repeat (destruct Hx as [<-|Hx]; [split; [discriminate|reflexivity]|]). destruct Hx.
+  intros H x Hx. rewrite forallb_forall in H. specialize (H x Hx). unfold plainb in H. split; [lia|].
+  destruct (is_anchor x); [|reflexivity]. rewrite andb_false_r in H. discriminate.
 Qed.
 
 Definition needle_tail : bytes := [112; 123; 73; 115].
+
+Lemma needle_tail_plain : forall x, In x needle_tail -> x <> 92 /\ is_anchor x = false.
+Proof. apply plain_list. reflexivity. Qed.
 
 Lemma starts_needle c s : starts_with needle (c :: s) = (92 =? c) && starts_with needle_tail s.
 Proof. reflexivity. Qed.
@@ -233,21 +463,29 @@ Proof. reflexivity. Qed.
 Lemma starts_tail c s : starts_with needle_tail (c :: s) = (112 =? c) && starts_with [123; 73; 115] s.
 Proof. reflexivity. Qed.
 
+Lemma ins_starts_needle p o c : ins p o -> starts_with needle (c :: o) = starts_with needle (c :: p).
+Proof. intro Hi. rewrite !starts_needle. f_equal. apply ins_starts; [exact Hi|exact needle_tail_plain]. Qed.
+
+Lemma anchor_not_needle c s : is_anchor c = true ->
+  starts_with needle (92 :: c :: s) = false /\ starts_with needle (c :: s) = false.
+Proof.
+  intro Hc. rewrite !starts_needle, starts_tail. apply anchor_cases in Hc.
+  assert (H1 : (112 =? c) = false) by lia. assert (H2 : (92 =? c) = false) by lia.
+  rewrite H1, H2. split; reflexivity.
+Qed.
+
 Lemma ins_has_sub p o : ins p o -> has_sub needle o = has_sub needle p.
 Proof.
   induction 1 as [|c p o Hi IH|c p o Hc Hi IH].
   - reflexivity.
-  - cbn [has_sub]. rewrite IH, !starts_needle. f_equal. f_equal.
-    apply ins_starts; [exact Hi|exact needle_tail_plain].
-  - cbn [has_sub]. rewrite IH, !starts_needle, starts_tail.
-    apply anchor_cases in Hc.
-    assert (H1 : (112 =? c) = false) by lia. assert (H2 : (92 =? c) = false) by lia.
-    rewrite H1, H2. rewrite andb_false_r. reflexivity.
+  - rewrite !has_sub_cons, IH, (ins_starts_needle _ _ _ Hi). reflexivity.
+  - destruct (anchor_not_needle c o Hc) as [E1 E2]. destruct (anchor_not_needle c p Hc) as [_ E3].
+    rewrite !has_sub_cons, IH, E1, E2, E3. reflexivity.
 Qed.
 
-(* a pattern made of ordinary bytes, escape pairs, bracket expressions and unescaped '^' / '$'
-   outside brackets, without \p{Is : every such '^' / '$' gets exactly one backslash, nothing else
-   changes *)
+(* a pattern made of ordinary bytes, escape pairs of any byte, bracket expressions and unescaped
+   '^' / '$' outside brackets, without \p{Is : every such '^' / '$' gets exactly one backslash,
+   nothing else changes (in particular \^ and \$ stay as they are) *)
 Theorem rewrite_caret_dollar ts :
   forallb tok_ok ts = true -> find_sub needle (flat_map render ts) = None ->
   rewrite (flat_map render ts) = Ok (flat_map render_esc ts).
@@ -256,6 +494,700 @@ Proof.
   pose proof (esc_tokens ts [] [] Hok eq_refl) as He. rewrite !app_nil_r in He. rewrite He.
   cbn [bind]. apply chblocks_noblock.
   apply find_sub_none. rewrite (ins_has_sub _ _ (ins_tokens ts Hok)). apply find_sub_none. exact Hn.
+Qed.
+
+(* ---- facts about the table, by computation ------------------------------------------------------ *)
+Lemma needle_nonnil : needle <> [].
+Proof. discriminate. Qed.
+
+Definition bs2 : bytes := [92; 92].                                   (* an escaped backslash *)
+
+Lemma bs2_nonnil : bs2 <> [].
+Proof. discriminate. Qed.
+
+(* a replacement text R as it is written (whole or without its brackets, possibly cut): it contains
+   neither \p{Is nor two backslashes in a row, starts with '[' or a backslash and does not end with a
+   byte that could begin an occurrence of either *)
+Definition range_ok (R : bytes) : bool :=
+  negb (has_sub needle R) && negb (has_sub bs2 R) &&
+  match R with [] => false | h :: _ => (h =? 91) || (h =? 92) end &&
+  negb (existsb (N.eqb (last R 0)) [92; 112; 123; 73]).
+
+Definition entry_ok (e : bytes * bytes) : bool :=
+  forallb plainb (fst e) && range_ok (firstn URANGE_LEN (snd e)) &&
+  range_ok (firstn (URANGE_LEN - 2) (skipn 1 (snd e))).
+
+Lemma table_ok : forallb entry_ok ublock2urange = true.
+Proof. vm_compute. reflexivity. Qed.
+
+(* no table name followed by '}' is a prefix of a table name: the lookup of NAME} does not depend on
+   the text after the '}' *)
+Lemma table_names_closed :
+  forallb (fun e => forallb (fun x => negb (starts_with (fst e ++ [125]) (fst x))) ublock2urange) ublock2urange = true.
+Proof. vm_compute. reflexivity. Qed.
+
+Lemma block_find_in text e : block_find text = Some e -> In e ublock2urange /\ starts_with (fst e) text = true.
+Proof. unfold block_find. intro H. apply find_some in H. exact H. Qed.
+
+Lemma entry_facts e : In e ublock2urange ->
+  forallb plainb (fst e) = true /\ range_ok (firstn URANGE_LEN (snd e)) = true /\
+  range_ok (firstn (URANGE_LEN - 2) (skipn 1 (snd e))) = true.
+Proof.
+  intro Hin. pose proof table_ok as H. rewrite forallb_forall in H. specialize (H e Hin).
+  unfold entry_ok in H. apply andb_true_iff in H. destruct H as [H H3].
+  apply andb_true_iff in H. destruct H as [H1 H2]. repeat split; assumption.
+Qed.
+
+Lemma range_ok_facts R : range_ok R = true ->
+  R <> [] /\ has_sub needle R = false /\ has_sub bs2 R = false /\
+  (forall a rest, nostr needle a (R ++ rest)) /\
+  (forall a rest, nostr needle (a ++ R) rest) /\
+  (forall a rest, nostr bs2 (a ++ R) rest).
+Proof.
+  unfold range_ok. intro H.
+  apply andb_true_iff in H. destruct H as [H H4]. apply andb_true_iff in H. destruct H as [H H3].
+  apply andb_true_iff in H. destruct H as [H1 H2].
+  apply negb_true_iff in H1, H2, H4.
+  assert (Hne : R <> []) by (destruct R; [discriminate|discriminate]).
+  assert (Hlast : forall y, In y [92; 112; 123; 73] -> last R 0 <> y).
+  { intros y Hy E. assert (X : existsb (N.eqb (last R 0)) [92; 112; 123; 73] = true).
+    { apply existsb_exists. exists y. split; [exact Hy|apply N.eqb_eq; exact E]. }
+    congruence. }
+  repeat split; try assumption.
+  - intros a rest. apply nostr_by_hd. intros y b' E Hy.
+    destruct R as [|h R]; [congruence|]. cbn [app] in E. inversion E; subst y.
+    cbn [needle tl In] in Hy. lia.
+  - intros a rest. apply nostr_by_last.
+    + destruct a; [exact Hne|discriminate].
+    + rewrite (last_suffix a R 0 Hne). intro Hin. apply (Hlast (last R 0)); [|reflexivity].
+      cbn [needle removelast] in Hin. exact Hin.
+  - intros a rest. apply nostr_by_last.
+    + destruct a; [exact Hne|discriminate].
+    + rewrite (last_suffix a R 0 Hne). intro Hin. apply (Hlast (last R 0)); [|reflexivity].
+      cbn [bs2 removelast In] in Hin. cbn [In]. destruct Hin as [Hin|[]]. left. exact Hin.
+Qed.
+
+(* ---- one iteration of the block loop ------------------------------------------------------------ *)
+Lemma chblocks_step_ok s s' : chblocks_step s = Some (Ok s') ->
+  exists before at_ rest e R,
+    find_sub needle s = Some (before, at_) /\ after_char 125 at_ = Some rest /\
+    block_find (skipn 5 at_) = Some e /\
+    R = (if (brk_count 0 before 0%Z =? 0)%Z then firstn URANGE_LEN (snd e)
+         else firstn (URANGE_LEN - 2) (skipn 1 (snd e))) /\
+    s' = before ++ R ++ rest.
+Proof.
+  unfold chblocks_step. intro H.
+  destruct (find_sub needle s) as [[before at_]|] eqn:F; [|discriminate].
+  destruct (after_char 125 at_) as [rest|] eqn:A; [|discriminate].
+  destruct (block_find (skipn 5 at_)) as [e|] eqn:B; [|discriminate].
+  exists before, at_, rest, e. eexists.
+  split; [reflexivity|]. split; [exact A|]. split; [exact B|]. split; [reflexivity|].
+  destruct (brk_count 0 before 0 =? 0)%Z; injection H as H; symmetry; exact H.
+Qed.
+
+Lemma chblocks_step_err s e : chblocks_step s = Some (Err e) -> e = 2 \/ e = 3.
+Proof.
+  unfold chblocks_step. intro H.
+  destruct (find_sub needle s) as [[before at_]|]; [|discriminate].
+  destruct (after_char 125 at_) as [rest|]; [|inversion H; left; reflexivity].
+  destruct (block_find (skipn 5 at_)) as [e'|]; [|inversion H; right; reflexivity].
+  destruct (brk_count 0 before 0 =? 0)%Z; discriminate.
+Qed.
+
+(* after the substitution the next occurrence of \p{Is is searched in the text after the '}' only:
+   none is in the text before the block, none in the range written, none across their borders *)
+Lemma step_next_find before R rest :
+  has_sub needle before = false -> range_ok R = true ->
+  find_sub needle (before ++ R ++ rest)
+  = match find_sub needle rest with Some (x, y) => Some ((before ++ R) ++ x, y) | None => None end.
+Proof.
+  intros Hb HR. destruct (range_ok_facts R HR) as (Hne & HnR & _ & N1 & N2 & _).
+  rewrite app_assoc. apply find_sub_app; [exact needle_nonnil|apply N2|].
+  rewrite <- (app_nil_r R), has_sub_app by (exact needle_nonnil || apply N1).
+  rewrite app_nil_r, Hb, HnR. reflexivity.
+Qed.
+
+(* measure: the length of the text from the first occurrence of \p{Is on *)
+Definition mu (s : bytes) : nat :=
+  match find_sub needle s with Some (_, a) => length a | None => O end.
+
+Lemma mu_le s : (mu s <= length s)%nat.
+Proof.
+  unfold mu. destruct (find_sub needle s) as [[b a]|] eqn:F; [|lia].
+  destruct (find_sub_some _ _ _ _ needle_nonnil F) as (-> & _ & _). rewrite app_length. lia.
+Qed.
+
+Lemma mu_step s s' : chblocks_step s = Some (Ok s') -> (mu s' < mu s)%nat.
+Proof.
+  intro H. destruct (chblocks_step_ok _ _ H) as (before & at_ & rest & e & R & F & A & B & ER & ->).
+  destruct (find_sub_some _ _ _ _ needle_nonnil F) as (_ & Hb & _).
+  destruct (block_find_in _ _ B) as [Hin _]. destruct (entry_facts e Hin) as (_ & R1 & R2).
+  assert (HR : range_ok R = true) by (rewrite ER; destruct (brk_count 0 before 0 =? 0)%Z; assumption).
+  unfold mu at 1. rewrite (step_next_find before R rest Hb HR).
+  unfold mu. rewrite F. destruct (after_char_some _ _ _ A) as [mid ->].
+  destruct (find_sub needle rest) as [[x y]|] eqn:F2.
+  - destruct (find_sub_some _ _ _ _ needle_nonnil F2) as (-> & _ & _).
+    rewrite !app_length. cbn [length]. rewrite app_length. lia.
+  - rewrite app_length. cbn [length]. lia.
+Qed.
+
+(* the loop ends within the fuel it is given and fails only as the code does *)
+Lemma chblocks_result fuel : forall s, (mu s < fuel)%nat ->
+  (exists t, chblocks fuel s = Ok t) \/ chblocks fuel s = Err 2 \/ chblocks fuel s = Err 3.
+Proof.
+  induction fuel as [|f IH]; intros s Hm; [lia|].
+  cbn [chblocks]. destruct (chblocks_step s) as [[s'|e]|] eqn:St.
+  - apply IH. pose proof (mu_step _ _ St). lia.
+  - destruct (chblocks_step_err _ _ St) as [-> | ->]; [right; left|right; right]; reflexivity.
+  - left. exists s. reflexivity.
+Qed.
+
+(* the rewrite ends with a text or with one of the three errors of the code; in particular it never
+   reaches undefined behaviour (no error class for it is left in the model) and the model's fuel
+   never runs out *)
+Theorem rewrite_result p :
+  (exists t, rewrite p = Ok t) \/ rewrite p = Err 1 \/ rewrite p = Err 2 \/ rewrite p = Err 3.
+Proof.
+  unfold rewrite. destruct (esc_pass 0 false p) as [q|e] eqn:E.
+  - cbn [bind]. destruct (chblocks_result (S (length q)) q) as [H|[H|H]].
+    + pose proof (mu_le q). lia.
+    + left. exact H.
+    + right. right. left. exact H.
+    + right. right. right. exact H.
+  - cbn [bind]. right. left. rewrite (esc_pass_err _ _ _ _ E). reflexivity.
+Qed.
+
+Corollary rewrite_no_ub p : rewrite p <> Err 4 /\ rewrite p <> Err 9.
+Proof.
+  destruct (rewrite_result p) as [[t H]|[H|[H|H]]]; rewrite H; split; discriminate.
+Qed.
+
+(* which names the lookup of the code resolves to their own entry: all but the six that have an
+   earlier entry as a proper prefix (GreekExtended, BopomofoExtended, CJKCompatibilityIdeographs,
+   ArabicPresentationForms-A, CJKCompatibilityForms, ArabicPresentationForms-B = entries 38 66 75 77
+   79 81, shadowed by Greek, Bopomofo, CJKCompatibility, Arabic) *)
+Definition shadowed_names : list bytes :=
+  map (fun i => fst (nth i ublock2urange ([], []))) [38; 66; 75; 77; 79; 81]%nat.
+
+Definition resolved (e : bytes * bytes) : bool :=
+  match block_find (fst e ++ [125]) with
+  | Some e' => beq_bytes (fst e') (fst e) && beq_bytes (snd e') (snd e)
+  | None => false
+  end.
+
+Lemma table_resolved :
+  forallb (fun e => resolved e || existsb (beq_bytes (fst e)) shadowed_names) ublock2urange = true.
+Proof. vm_compute. reflexivity. Qed.
+
+Lemma shadowed_not_resolved :
+  forallb (fun e => negb (resolved e && existsb (beq_bytes (fst e)) shadowed_names)) ublock2urange = true
+  /\ length shadowed_names = 6%nat /\ length ublock2urange = 84%nat.
+Proof. vm_compute. repeat split. Qed.
+
+Theorem block_lookup (e : bytes * bytes) : In e ublock2urange ->
+  block_find (fst e ++ [125]) = Some e \/ In (fst e) shadowed_names.
+Proof.
+  intro Hin. pose proof table_resolved as H. rewrite forallb_forall in H. specialize (H e Hin).
+  apply orb_true_iff in H. destruct H as [H|H].
+  - left. unfold resolved in H. destruct (block_find (fst e ++ [125])) as [e'|]; [|discriminate].
+    apply andb_true_iff in H. destruct H as [H1 H2]. apply beq_bytes_eq in H1, H2.
+    destruct e, e'. cbn [fst snd] in *. subst. reflexivity.
+  - right. apply existsb_exists in H. destruct H as (n & Hn & E). apply beq_bytes_eq in E. subst n. exact Hn.
+Qed.
+
+(* ---- the first pass over a concatenation --------------------------------------------------------- *)
+(* the state (brack, escaped) of the loop of lys_compile_type_pattern_check() after the text p *)
+Fixpoint esc_end (brack : N) (escaped : bool) (p : bytes) : N * bool :=
+  match p with
+  | [] => (brack, escaped)
+  | c :: p' =>
+      if c =? 92 then esc_end brack (negb escaped) p'
+      else if c =? 91 then esc_end (if escaped then brack else brack + 1) false p'
+      else if c =? 93 then esc_end (if escaped then brack else brack - 1) false p'
+      else esc_end brack false p'
+  end.
+
+Lemma bind_assoc_ok (r : res bytes) (f g : bytes -> bytes) :
+  bind (bind r (fun x => Ok (f x))) (fun y => Ok (g y)) = bind r (fun x => Ok (g (f x))).
+Proof. destruct r; reflexivity. Qed.
+
+Lemma esc_pass_app a : forall b e c a',
+  esc_pass b e a = Ok a' ->
+  esc_pass b e (a ++ c)
+  = bind (esc_pass (fst (esc_end b e a)) (snd (esc_end b e a)) c) (fun c' => Ok (a' ++ c')).
+Proof.
+  induction a as [|x a IH]; intros b e c a' H.
+  - inversion H; subst. cbn [app esc_end fst snd]. destruct (esc_pass b e c); reflexivity.
+  - cbn [esc_pass] in H. cbn [app esc_pass esc_end].
+    destruct (x =? 92) eqn:H92.
+    { apply bind_ok in H. destruct H as (u & Hu & Hq). inversion Hq; subst a'.
+      rewrite (IH _ _ c _ Hu), bind_assoc_ok. reflexivity. }
+    destruct (is_anchor x) eqn:Hanc.
+    { assert (H91 : (x =? 91) = false) by (apply anchor_cases in Hanc; lia).
+      assert (H93 : (x =? 93) = false) by (apply anchor_cases in Hanc; lia).
+      rewrite H91, H93.
+      apply bind_ok in H. destruct H as (u & Hu & Hq).
+      rewrite (IH _ _ c _ Hu).
+      destruct ((b =? 0) && negb e); inversion Hq; subst a';
+        destruct (esc_pass (fst (esc_end b false a)) (snd (esc_end b false a)) c); reflexivity. }
+    destruct (x =? 91) eqn:H91.
+    { apply bind_ok in H. destruct H as (u & Hu & Hq). inversion Hq; subst a'.
+      rewrite (IH _ _ c _ Hu), bind_assoc_ok. reflexivity. }
+    destruct (x =? 93) eqn:H93.
+    { destruct ((b =? 0) && negb e); [discriminate|].
+      apply bind_ok in H. destruct H as (u & Hu & Hq). inversion Hq; subst a'.
+      rewrite (IH _ _ c _ Hu), bind_assoc_ok. reflexivity. }
+    apply bind_ok in H. destruct H as (u & Hu & Hq). inversion Hq; subst a'.
+    rewrite (IH _ _ c _ Hu), bind_assoc_ok. reflexivity.
+Qed.
+
+Lemma plainb_facts x : plainb x = true -> x <> 92 /\ x <> 91 /\ x <> 93 /\ x <> 125 /\ is_anchor x = false.
+Proof.
+  unfold plainb. intro H. destruct (is_anchor x); [rewrite !andb_false_r in H; cbn in H; discriminate|]. lia.
+Qed.
+
+Lemma esc_plain_list l : forall b t o,
+  forallb plainb l = true -> esc_pass b false t = Ok o -> esc_pass b false (l ++ t) = Ok (l ++ o).
+Proof.
+  induction l as [|x l IH]; intros b t o Hl Ht; [exact Ht|].
+  cbn [forallb] in Hl. apply andb_true_iff in Hl. destruct Hl as [Hx Hl].
+  destruct (plainb_facts x Hx) as (H1 & H2 & H3 & _ & H5).
+  cbn [app]. apply esc_plain; try assumption; [left; exact H5|]. apply IH; assumption.
+Qed.
+
+(* the text \p{IsNAME} of a table name is copied as it is and leaves the state unchanged *)
+Lemma esc_block b name t o :
+  forallb plainb name = true -> esc_pass b false t = Ok o ->
+  esc_pass b false (needle ++ name ++ 125 :: t) = Ok (needle ++ name ++ 125 :: o).
+Proof.
+  intros Hn Ht. change needle with ([92; 112] ++ [123; 73; 115]). rewrite <- !app_assoc.
+  cbn [app]. apply esc_pair.
+  change (123 :: 73 :: 115 :: name ++ 125 :: t) with ([123; 73; 115] ++ name ++ 125 :: t).
+  change (123 :: 73 :: 115 :: name ++ 125 :: o) with ([123; 73; 115] ++ name ++ 125 :: o).
+  apply esc_plain_list; [reflexivity|]. apply esc_plain_list; [exact Hn|].
+  apply esc_plain; try discriminate; [left; reflexivity|exact Ht].
+Qed.
+
+(* ---- the lookup of an exact table name ------------------------------------------------------------ *)
+Lemma find_ext_in {A} (f g : A -> bool) l : (forall x, In x l -> f x = g x) -> find f l = find g l.
+Proof.
+  induction l as [|x l IH]; intro H; [reflexivity|].
+  cbn [find]. rewrite (H x) by (left; reflexivity). rewrite IH; [reflexivity|].
+  intros y Hy. apply H. right. exact Hy.
+Qed.
+
+Lemma block_find_ext e r : In e ublock2urange -> block_find (fst e ++ 125 :: r) = block_find (fst e ++ [125]).
+Proof.
+  intro Hin. unfold block_find. apply find_ext_in. intros x Hx.
+  change (fst e ++ 125 :: r) with (fst e ++ [125] ++ r). rewrite app_assoc.
+  apply starts_with_decided.
+  pose proof table_names_closed as H. rewrite forallb_forall in H. specialize (H e Hin).
+  rewrite forallb_forall in H. specialize (H x Hx). apply negb_true_iff in H. exact H.
+Qed.
+
+Lemma no125 name : forallb plainb name = true -> forallb (fun c => negb (c =? 125)) (needle ++ name) = true.
+Proof.
+  intro H. rewrite forallb_app. apply andb_true_iff. split; [reflexivity|].
+  apply forallb_forall. intros x Hx. rewrite forallb_forall in H.
+  destruct (plainb_facts x (H x Hx)) as (_ & _ & _ & H4 & _). lia.
+Qed.
+
+(* ---- exactly one block ------------------------------------------------------------------------------ *)
+Lemma chblocks_once s s1 f : chblocks_step s = Some (Ok s1) -> chblocks_step s1 = None -> chblocks (S (S f)) s = Ok s1.
+Proof. intros H1 H2. cbn [chblocks]. rewrite H1, H2. reflexivity. Qed.
+
+(* pattern pre ++ \p{IsNAME} ++ post, NAME a table name that the lookup of the code finds (not one of
+   the six names shadowed by an earlier entry that is a prefix of them), no other \p{Is , pre not
+   ending in the middle of an escape pair: the text handed to PCRE2 is pre' ++ R ++ post' where pre' and
+   post' are what the first pass makes of pre and post (post from the bracket depth b that pre leaves)
+   and R is the replacement text of NAME - its first URANGE_LEN bytes when the bracket counter of the
+   second function is 0 after pre', else URANGE_LEN - 2 bytes after its first *)
+Theorem rewrite_block pre post e pre' post' b :
+  In e ublock2urange -> block_find (fst e ++ [125]) = Some e ->
+  has_sub needle pre = false -> has_sub needle post = false ->
+  esc_pass 0 false pre = Ok pre' -> esc_end 0 false pre = (b, false) ->
+  esc_pass b false post = Ok post' ->
+  rewrite (pre ++ needle ++ fst e ++ 125 :: post)
+  = Ok (pre' ++ (if (brk_count 0 pre' 0%Z =? 0)%Z then firstn URANGE_LEN (snd e)
+                 else firstn (URANGE_LEN - 2) (skipn 1 (snd e))) ++ post').
+Proof.
+  intros Hin Hfind Hpre Hpost Epre Eend Epost.
+  destruct (entry_facts e Hin) as (Hname & R1 & R2).
+  unfold rewrite.
+  rewrite (esc_pass_app pre 0 false _ pre' Epre), Eend. cbn [fst snd].
+  rewrite (esc_block b (fst e) post post' Hname Epost). cbn [bind].
+  set (q := pre' ++ needle ++ fst e ++ 125 :: post').
+  assert (Hq : exists n, length q = S n).
+  { unfold q. rewrite !app_length. cbn [needle length]. eexists. rewrite Nat.add_comm. cbn [Nat.add]. reflexivity. }
+  destruct Hq as [n Hq]. rewrite Hq.
+  assert (Hpre' : has_sub needle pre' = false) by (rewrite (ins_has_sub _ _ (esc_pass_ins _ _ _ _ Epre)); exact Hpre).
+  assert (Hpost' : has_sub needle post' = false) by (rewrite (ins_has_sub _ _ (esc_pass_ins _ _ _ _ Epost)); exact Hpost).
+  assert (F : find_sub needle q = Some (pre', needle ++ fst e ++ 125 :: post')).
+  { unfold q. rewrite find_sub_app; [|exact needle_nonnil| |exact Hpre'].
+    - replace (find_sub needle (needle ++ fst e ++ 125 :: post')) with (Some (@nil N, needle ++ fst e ++ 125 :: post')).
+      + rewrite app_nil_r. reflexivity.
+      + reflexivity.
+    - apply nostr_by_hd. intros y b' E Hy. cbn [needle app] in E. inversion E; subst y.
+      cbn [needle tl In] in Hy. lia. }
+  set (R := if (brk_count 0 pre' 0 =? 0)%Z then firstn URANGE_LEN (snd e) else firstn (URANGE_LEN - 2) (skipn 1 (snd e))).
+  assert (HR : range_ok R = true) by (unfold R; destruct (brk_count 0 pre' 0 =? 0)%Z; assumption).
+  assert (S1 : chblocks_step q = Some (Ok (pre' ++ R ++ post'))).
+  { unfold chblocks_step. rewrite F. rewrite app_assoc, (after_char_app 125 _ post' (no125 _ Hname)).
+    rewrite <- app_assoc. change (skipn 5 (needle ++ fst e ++ 125 :: post')) with (fst e ++ 125 :: post').
+    rewrite (block_find_ext e post' Hin), Hfind. unfold R.
+    destruct (brk_count 0 pre' 0 =? 0)%Z; reflexivity. }
+  destruct n as [|n].
+  { exfalso. unfold q in Hq. rewrite !app_length in Hq. cbn [needle length] in Hq. lia. }
+  apply chblocks_once; [exact S1|].
+  unfold chblocks_step. rewrite (step_next_find pre' R post' Hpre' HR).
+  apply find_sub_none in Hpost'. rewrite Hpost'. reflexivity.
+Qed.
+
+(* ---- the two bracket counters ---------------------------------------------------------------------- *)
+(* without two backslashes in a row, a byte is escaped iff the byte before it is a backslash: the
+   counter of the second function (previous byte) and the one of the first (escape state) agree *)
+Lemma bs2_head prev c s : has_sub bs2 (prev :: c :: s) = false ->
+  ((prev =? 92) && (c =? 92) = false) /\ has_sub bs2 (c :: s) = false.
+Proof.
+  rewrite has_sub_cons. intro H. apply orb_false_iff in H. destruct H as [H1 H2]. split; [|exact H2].
+  cbn [bs2 starts_with] in H1. rewrite andb_true_r in H1. rewrite (N.eqb_sym prev), (N.eqb_sym c). exact H1.
+Qed.
+
+Lemma brk_depth s : forall prev e acc,
+  e = (prev =? 92) -> has_sub bs2 (prev :: s) = false -> brk_count prev s acc = depth_spec e s acc.
+Proof.
+  induction s as [|c s IH]; intros prev e acc He Hs; [reflexivity|].
+  destruct (bs2_head _ _ _ Hs) as [Hpc Hs'].
+  cbn [brk_count depth_spec].
+  destruct (c =? 92) eqn:H92.
+  { assert (Hp : (prev =? 92) = false) by (rewrite andb_true_r in Hpc; exact Hpc).
+    assert (H91 : (c =? 91) = false) by lia. assert (H93 : (c =? 93) = false) by lia.
+    rewrite H91, H93. cbn [andb]. apply IH; [rewrite He, Hp; cbn [negb]; lia|exact Hs']. }
+  rewrite <- He.
+  destruct (c =? 91) eqn:H91.
+  { assert (H93 : (c =? 93) = false) by lia. rewrite H93. cbn [andb].
+    destruct e; cbn [negb]; apply IH; try exact Hs'; lia. }
+  destruct (c =? 93) eqn:H93.
+  { cbn [andb]. destruct e; cbn [negb]; apply IH; try exact Hs'; lia. }
+  cbn [andb]. destruct e; apply IH; try exact Hs'; lia.
+Qed.
+
+(* the first pass creates no two backslashes in a row when the pattern has none *)
+Lemma esc_pass_no_bs2 p : forall prev b e q,
+  e = (prev =? 92) -> has_sub bs2 (prev :: p) = false -> esc_pass b e p = Ok q ->
+  has_sub bs2 (prev :: q) = false.
+Proof.
+  induction p as [|c p IH]; intros prev b e q He Hs H.
+  - inversion H; subst. exact Hs.
+  - destruct (bs2_head _ _ _ Hs) as [Hpc Hs'].
+    cbn [esc_pass] in H.
+    destruct (c =? 92) eqn:H92.
+    { apply bind_ok in H. destruct H as (u & Hu & Hq). inversion Hq; subst q.
+      assert (Hp : (prev =? 92) = false) by (rewrite andb_true_r in Hpc; exact Hpc).
+      apply N.eqb_eq in H92. subst c.
+      assert (X : has_sub bs2 (92 :: u) = false) by (apply (IH 92 b (negb e)); [rewrite He, Hp; reflexivity|exact Hs'|exact Hu]).
+      rewrite has_sub_cons, X. cbn [bs2 starts_with]. rewrite (N.eqb_sym 92 prev), Hp. reflexivity. }
+    assert (IHc : forall b' u, esc_pass b' false p = Ok u -> has_sub bs2 (c :: u) = false).
+    { intros b' u Hu. apply (IH c b' false); [lia|exact Hs'|exact Hu]. }
+    assert (Hc : forall u, has_sub bs2 (c :: u) = false -> has_sub bs2 (prev :: c :: u) = false).
+    { intros u X. rewrite has_sub_cons, X. cbn [bs2 starts_with]. rewrite (N.eqb_sym 92 c), H92. rewrite !andb_false_r. reflexivity. }
+    destruct (is_anchor c) eqn:Hanc.
+    { apply bind_ok in H. destruct H as (u & Hu & Hq).
+      destruct ((b =? 0) && negb e) eqn:Hins; inversion Hq; subst q.
+      - assert (Hp : (prev =? 92) = false).
+        { apply andb_true_iff in Hins. destruct Hins as [_ Hne]. apply negb_true_iff in Hne. congruence. }
+        rewrite (has_sub_cons bs2 prev), (has_sub_cons bs2 92), (IHc _ _ Hu).
+        cbn [bs2 starts_with]. rewrite (N.eqb_sym 92 prev), Hp, (N.eqb_sym 92 c), H92.
+        change (92 =? 92) with true. reflexivity.
+      - apply Hc. exact (IHc _ _ Hu). }
+    destruct (c =? 91).
+    { apply bind_ok in H. destruct H as (u & Hu & Hq). inversion Hq; subst q. apply Hc. exact (IHc _ _ Hu). }
+    destruct (c =? 93).
+    { destruct ((b =? 0) && negb e); [discriminate|].
+      apply bind_ok in H. destruct H as (u & Hu & Hq). inversion Hq; subst q. apply Hc. exact (IHc _ _ Hu). }
+    apply bind_ok in H. destruct H as (u & Hu & Hq). inversion Hq; subst q. apply Hc. exact (IHc _ _ Hu).
+Qed.
+
+Lemma has_sub_bs2_zero s : has_sub bs2 (0 :: s) = has_sub bs2 s.
+Proof. reflexivity. Qed.
+
+(* the properly tracked depth of the rewritten text is the brack of the first pass *)
+Lemma depth_esc p : forall b e q,
+  esc_pass b e p = Ok q -> depth_spec e q (Z.of_N b) = Z.of_N (fst (esc_end b e p)).
+Proof.
+  induction p as [|c p IH]; intros b e q H.
+  - inversion H; subst. reflexivity.
+  - cbn [esc_pass] in H. cbn [esc_end].
+    destruct (c =? 92) eqn:H92.
+    { apply bind_ok in H. destruct H as (u & Hu & Hq). inversion Hq; subst q.
+      cbn [depth_spec]. change (92 =? 92) with true. cbn iota. exact (IH _ _ _ Hu). }
+    destruct (is_anchor c) eqn:Hanc.
+    { assert (H91 : (c =? 91) = false) by (apply anchor_cases in Hanc; lia).
+      assert (H93 : (c =? 93) = false) by (apply anchor_cases in Hanc; lia).
+      rewrite H91, H93.
+      apply bind_ok in H. destruct H as (u & Hu & Hq).
+      destruct ((b =? 0) && negb e) eqn:Hins; inversion Hq; subst q.
+      - apply andb_true_iff in Hins. destruct Hins as [_ Hne]. apply negb_true_iff in Hne. subst e.
+        cbn [depth_spec]. change (92 =? 92) with true. cbn iota. cbn [negb]. rewrite H92. exact (IH _ _ _ Hu).
+      - cbn [depth_spec]. rewrite H92, H91, H93. destruct e; exact (IH _ _ _ Hu). }
+    destruct (c =? 91) eqn:H91.
+    { apply bind_ok in H. destruct H as (u & Hu & Hq). inversion Hq; subst q.
+      cbn [depth_spec]. rewrite H92, H91. destruct e; [exact (IH _ _ _ Hu)|].
+      rewrite <- (IH _ _ _ Hu). f_equal. lia. }
+    destruct (c =? 93) eqn:H93.
+    { destruct ((b =? 0) && negb e) eqn:Hstray; [discriminate|].
+      apply bind_ok in H. destruct H as (u & Hu & Hq). inversion Hq; subst q.
+      cbn [depth_spec]. rewrite H92, H91, H93. destruct e; [exact (IH _ _ _ Hu)|].
+      rewrite <- (IH _ _ _ Hu). f_equal. cbn [negb] in Hstray. rewrite andb_true_r in Hstray. lia. }
+    apply bind_ok in H. destruct H as (u & Hu & Hq). inversion Hq; subst q.
+    cbn [depth_spec]. rewrite H92, H91, H93. destruct e; exact (IH _ _ _ Hu).
+Qed.
+
+(* for a pre without an escaped backslash the counter of the second function is the bracket depth
+   b of the first pass: the range keeps its brackets iff the block stands outside brackets *)
+Lemma brk_is_depth pre pre' b e :
+  has_sub bs2 pre = false -> esc_pass 0 false pre = Ok pre' -> esc_end 0 false pre = (b, e) ->
+  brk_count 0 pre' 0%Z = Z.of_N b.
+Proof.
+  intros Hs Epre Eend.
+  rewrite (brk_depth pre' 0 false 0%Z eq_refl).
+  - change 0%Z with (Z.of_N 0). rewrite (depth_esc _ _ _ _ Epre), Eend. reflexivity.
+  - apply (esc_pass_no_bs2 pre 0 0 false pre' eq_refl); [exact Hs|exact Epre].
+Qed.
+
+Theorem rewrite_block_depth pre post e pre' post' b :
+  In e ublock2urange -> block_find (fst e ++ [125]) = Some e ->
+  has_sub needle pre = false -> has_sub needle post = false -> has_sub bs2 pre = false ->
+  esc_pass 0 false pre = Ok pre' -> esc_end 0 false pre = (b, false) ->
+  esc_pass b false post = Ok post' ->
+  rewrite (pre ++ needle ++ fst e ++ 125 :: post)
+  = Ok (pre' ++ (if b =? 0 then firstn URANGE_LEN (snd e)
+                 else firstn (URANGE_LEN - 2) (skipn 1 (snd e))) ++ post').
+Proof.
+  intros Hin Hfind Hpre Hpost Hbs Epre Eend Epost.
+  rewrite (rewrite_block pre post e pre' post' b Hin Hfind Hpre Hpost Epre Eend Epost).
+  rewrite (brk_is_depth pre pre' b false Hbs Epre Eend).
+  replace (Z.of_N b =? 0)%Z with (b =? 0) by lia. reflexivity.
+Qed.
+
+(* ---- the code is the Spec on patterns without an escaped backslash whose blocks are exact names ---- *)
+Lemma blocks_exact_cons c s :
+  blocks_exact (c :: s) = (if starts_with needle (c :: s) then name_exact (skipn 5 (c :: s)) else true) && blocks_exact s.
+Proof. reflexivity. Qed.
+
+Lemma blocks_exact_suffix a b : blocks_exact (a ++ b) = true -> blocks_exact b = true.
+Proof.
+  induction a as [|c a IH]; intro H; [exact H|].
+  cbn [app] in H. rewrite blocks_exact_cons in H. apply andb_true_iff in H. apply IH. apply H.
+Qed.
+
+Lemma blocks_exact_head s : blocks_exact s = true -> starts_with needle s = true -> name_exact (skipn 5 s) = true.
+Proof.
+  destruct s as [|c s]; [discriminate|]. rewrite blocks_exact_cons. intros H Hs. rewrite Hs in H.
+  apply andb_true_iff in H. apply H.
+Qed.
+
+Lemma blocks_exact_app a b :
+  has_sub needle a = false -> nostr needle a b -> blocks_exact (a ++ b) = blocks_exact b.
+Proof.
+  induction a as [|c a IH]; intros Ha Hn; [reflexivity|].
+  rewrite has_sub_cons in Ha. apply orb_false_iff in Ha. destruct Ha as [Hc Ha].
+  cbn [app]. rewrite blocks_exact_cons, (nostr_head _ _ _ _ Hn), Hc. cbn [andb].
+  apply IH; [exact Ha|exact (nostr_tail _ _ _ _ Hn)].
+Qed.
+
+Lemma name_plain e : In e ublock2urange ->
+  (forall x, In x (fst e) -> x <> 92 /\ is_anchor x = false) /\
+  (forall x, In x (fst e ++ [125]) -> x <> 92 /\ is_anchor x = false).
+Proof.
+  intro Hin. destruct (entry_facts e Hin) as (Hn & _ & _).
+  pose proof (plain_list _ Hn) as H. split; [exact H|].
+  intros x Hx. apply in_app_or in Hx. destruct Hx as [Hx|[<-|[]]]; [apply H; exact Hx|].
+  split; [discriminate|reflexivity].
+Qed.
+
+Lemma ins_name_exact t t' : ins t t' -> name_exact t' = name_exact t.
+Proof.
+  intro Hi. unfold name_exact.
+  assert (E : block_find t' = block_find t).
+  { unfold block_find. apply find_ext_in. intros x Hx. apply ins_starts; [exact Hi|].
+    apply (name_plain x Hx). }
+  rewrite E. destruct (block_find t) as [e|] eqn:B; [|reflexivity].
+  destruct (block_find_in _ _ B) as [Hin _].
+  rewrite (ins_starts (fst e ++ [125]) t t' Hi); [reflexivity|]. apply (name_plain e Hin).
+Qed.
+
+Lemma ins_plain_prefix l : forall p4 o,
+  (forall x, In x l -> x <> 92 /\ is_anchor x = false) -> ins (l ++ p4) o ->
+  exists o4, o = l ++ o4 /\ ins p4 o4.
+Proof.
+  induction l as [|x l IH]; intros p4 o Hl Hi.
+  - exists o. split; [reflexivity|exact Hi].
+  - cbn [app] in Hi. inversion Hi as [|c p' o' Hi'|c p' o' Hc Hi']; subst.
+    + destruct (IH p4 o') as (o4 & -> & H4); [intros y Hy; apply Hl; right; exact Hy|exact Hi'|].
+      exists o4. split; [reflexivity|exact H4].
+    + destruct (Hl x) as [_ Hx]; [left; reflexivity|]. congruence.
+Qed.
+
+Lemma ins_blocks_exact p o : ins p o -> blocks_exact o = blocks_exact p.
+Proof.
+  induction 1 as [|c p o Hi IH|c p o Hc Hi IH].
+  - reflexivity.
+  - rewrite !blocks_exact_cons, IH, (ins_starts_needle _ _ _ Hi). f_equal.
+    destruct (starts_with needle (c :: p)) eqn:Hs; [|reflexivity].
+    rewrite starts_needle in Hs. apply andb_true_iff in Hs. destruct Hs as [_ Hs].
+    apply starts_with_spec in Hs. destruct Hs as [p4 ->].
+    destruct (ins_plain_prefix needle_tail p4 o needle_tail_plain Hi) as (o4 & -> & H4).
+    change (skipn 5 (c :: needle_tail ++ o4)) with o4. change (skipn 5 (c :: needle_tail ++ p4)) with p4.
+    apply ins_name_exact. exact H4.
+  - destruct (anchor_not_needle c o Hc) as [E1 E2]. destruct (anchor_not_needle c p Hc) as [_ E3].
+    rewrite (blocks_exact_cons 92), (blocks_exact_cons c o), (blocks_exact_cons c p), E1, E2, E3, IH. reflexivity.
+Qed.
+
+Lemma name_exact_facts text : name_exact text = true ->
+  exists (e : bytes * bytes) (r : bytes), block_find text = Some e /\ In e ublock2urange /\ text = fst e ++ 125 :: r /\
+              length (snd e) = URANGE_LEN.
+Proof.
+  unfold name_exact. destruct (block_find text) as [e|] eqn:B; [|discriminate]. intro H.
+  apply andb_true_iff in H. destruct H as [H1 H2]. apply Nat.eqb_eq in H2.
+  apply starts_with_spec in H1. destruct H1 as [r ->]. rewrite <- app_assoc in *. cbn [app] in *.
+  exists e, r. destruct (block_find_in _ _ B) as [Hin _]. repeat split; assumption.
+Qed.
+
+(* when the first table name that is a prefix of NAME}... is NAME itself, the exact lookup finds the same entry *)
+Lemma find_exact (l : list (bytes * bytes)) (e : bytes * bytes) (r : bytes) :
+  find (fun x => starts_with (fst x) (fst e ++ 125 :: r)) l = Some e ->
+  find (fun x => beq_bytes (fst x) (fst e)) l = Some e.
+Proof.
+  induction l as [|x l IH]; intro H; [discriminate|].
+  cbn [find] in *. destruct (starts_with (fst x) (fst e ++ 125 :: r)) eqn:S.
+  - injection H as Hx. rewrite Hx.
+    assert (E : beq_bytes (fst e) (fst e) = true) by (apply beq_bytes_eq; reflexivity).
+    rewrite E. reflexivity.
+  - destruct (beq_bytes (fst x) (fst e)) eqn:E; [|exact (IH H)].
+    apply beq_bytes_eq in E. rewrite E, starts_with_app in S. discriminate.
+Qed.
+
+Lemma firstn_removelast {A} (l : list A) : forall n, length l = S n -> firstn n l = removelast l.
+Proof.
+  induction l as [|x l IH]; intros n H; [discriminate|].
+  cbn [length] in H. destruct l as [|y l].
+  - cbn [length] in H. assert (n = O) by lia. subst n. reflexivity.
+  - destruct n as [|n]; [cbn [length] in H; lia|].
+    change (removelast (x :: y :: l)) with (x :: removelast (y :: l)). cbn [firstn]. f_equal. apply IH. lia.
+Qed.
+
+(* Inv: no two backslashes in a row, every block an exact name *)
+Definition inv (s : bytes) : Prop := has_sub bs2 s = false /\ blocks_exact s = true.
+
+(* what one iteration sees on a text that satisfies inv *)
+Lemma inv_step_shape s before at_ :
+  inv s -> find_sub needle s = Some (before, at_) ->
+  exists (e : bytes * bytes) (r : bytes), s = before ++ at_ /\ at_ = needle ++ fst e ++ 125 :: r /\ In e ublock2urange /\
+              block_find (skipn 5 at_) = Some e /\ length (snd e) = URANGE_LEN /\
+              after_char 125 at_ = Some r /\ has_sub needle before = false /\
+              has_sub bs2 before = false.
+Proof.
+  intros [Hbs Hbe] F.
+  destruct (find_sub_some _ _ _ _ needle_nonnil F) as (Es & Hb & Hat).
+  subst s. pose proof (blocks_exact_suffix _ _ Hbe) as Hbe2.
+  pose proof (blocks_exact_head _ Hbe2 Hat) as Hne.
+  destruct (name_exact_facts _ Hne) as (e & r & B & Hin & Et & Hlen).
+  apply starts_with_spec in Hat. destruct Hat as [t Eat].
+  assert (t = skipn 5 at_) by (rewrite Eat; reflexivity). subst t.
+  exists e, r. rewrite Et in Eat.
+  destruct (entry_facts e Hin) as (Hname & _ & _).
+  repeat split; try assumption.
+  - rewrite Eat at 1. rewrite app_assoc. apply after_char_app. apply no125. exact Hname.
+  - apply (has_sub_app_false _ _ _ Hbs).
+Qed.
+
+Lemma step_eq_spec s : inv s -> chblocks_step s = chblocks_step_spec s.
+Proof.
+  intro Hinv. unfold chblocks_step, chblocks_step_spec.
+  destruct (find_sub needle s) as [[before at_]|] eqn:F; [|reflexivity].
+  destruct (inv_step_shape s before at_ Hinv F) as (e & r & Es & Eat & Hin & B & Hlen & A & Hb & Hbs).
+  rewrite A, B.
+  destruct (entry_facts e Hin) as (Hname & _ & _).
+  assert (Ename : before_char 125 (skipn 5 at_) = fst e).
+  { rewrite Eat. change (skipn 5 (needle ++ fst e ++ 125 :: r)) with (fst e ++ 125 :: r).
+    apply before_char_app. apply forallb_forall. intros x Hx. rewrite forallb_forall in Hname.
+    destruct (plainb_facts x (Hname x Hx)) as (_ & _ & _ & H4 & _). lia. }
+  rewrite Ename.
+  assert (Efind : find (fun x => beq_bytes (fst x) (fst e)) ublock2urange = Some e).
+  { apply (find_exact ublock2urange e r). rewrite Eat in B.
+    change (skipn 5 (needle ++ fst e ++ 125 :: r)) with (fst e ++ 125 :: r) in B. exact B. }
+  rewrite Efind. cbn zeta.
+  rewrite (brk_depth before 0 false 0%Z eq_refl) by (rewrite has_sub_bs2_zero; exact Hbs).
+  assert (E1 : firstn URANGE_LEN (snd e) = snd e) by (rewrite <- Hlen; apply firstn_all).
+  assert (E2 : firstn (URANGE_LEN - 2) (skipn 1 (snd e)) = removelast (skipn 1 (snd e))).
+  { apply firstn_removelast. rewrite skipn_length, Hlen. reflexivity. }
+  rewrite E1, E2. reflexivity.
+Qed.
+
+Lemma bs2_last a x : has_sub bs2 (a ++ 92 :: x) = false -> a <> [] -> last a 0 <> 92.
+Proof.
+  induction a as [|c a IH]; intros H Ha; [congruence|].
+  destruct a as [|c' a].
+  - cbn [app] in H. destruct (bs2_head _ _ _ H) as [Hc _]. cbn [last]. rewrite andb_true_r in Hc. lia.
+  - cbn [app] in H. rewrite has_sub_cons in H. apply orb_false_iff in H. destruct H as [_ H].
+    change (last (c :: c' :: a) 0) with (last (c' :: a) 0). apply IH; [exact H|discriminate].
+Qed.
+
+Lemma inv_step s s' : inv s -> chblocks_step s = Some (Ok s') -> inv s'.
+Proof.
+  intros Hinv St.
+  destruct (chblocks_step_ok _ _ St) as (before & at_ & rest & e0 & R & F & A0 & B0 & ER & ->).
+  destruct (inv_step_shape s before at_ Hinv F) as (e & r & Es & Eat & Hin & B & Hlen & A & Hb & Hbs).
+  assert (e0 = e) by congruence. subst e0. assert (rest = r) by congruence. subst rest.
+  destruct Hinv as [Hs2 Hbe].
+  destruct (entry_facts e Hin) as (_ & R1 & R2).
+  assert (HR : range_ok R = true) by (rewrite ER; destruct (brk_count 0 before 0 =? 0)%Z; assumption).
+  destruct (range_ok_facts R HR) as (Hne & HnR & HbR & N1 & N2 & N3).
+  rewrite Es, Eat in Hs2, Hbe.
+  split.
+  - (* no two backslashes in a row *)
+    destruct (has_sub_app_false _ _ _ Hs2) as [_ Hs3].
+    rewrite app_assoc in Hs3. destruct (has_sub_app_false _ _ _ Hs3) as [_ Hs4].
+    assert (Hr : has_sub bs2 r = false).
+    { change (125 :: r) with ([125] ++ r) in Hs4. apply (has_sub_app_false _ _ _ Hs4). }
+    assert (HRr : has_sub bs2 (R ++ r) = false).
+    { rewrite <- (app_nil_l R) at 1. rewrite <- app_assoc.
+      rewrite (app_assoc [] R r), has_sub_app by (exact bs2_nonnil || apply N3).
+      cbn [app]. rewrite HbR, Hr. reflexivity. }
+    destruct before as [|c before]; [exact HRr|].
+    rewrite has_sub_app; [rewrite Hbs, HRr; reflexivity|exact bs2_nonnil|].
+    apply nostr_by_last; [discriminate|].
+    cbn [bs2 removelast In]. intros [E|[]]. symmetry in E. revert E.
+    apply (bs2_last (c :: before) (tl needle ++ fst e ++ 125 :: r)); [exact Hs2|discriminate].
+  - (* every remaining block is an exact name *)
+    rewrite app_assoc. rewrite blocks_exact_app.
+    + apply (blocks_exact_suffix (before ++ needle ++ fst e ++ [125]) r).
+      rewrite <- !app_assoc. exact Hbe.
+    + rewrite <- (app_nil_r R), has_sub_app by (exact needle_nonnil || apply N1).
+      rewrite app_nil_r, Hb, HnR. reflexivity.
+    + apply N2.
+Qed.
+
+Lemma chblocks_eq_spec fuel : forall s, inv s -> chblocks fuel s = chblocks_spec fuel s.
+Proof.
+  induction fuel as [|f IH]; intros s Hinv; [reflexivity|].
+  cbn [chblocks chblocks_spec]. rewrite <- (step_eq_spec s Hinv).
+  destruct (chblocks_step s) as [[s'|e]|] eqn:St; try reflexivity.
+  apply IH. exact (inv_step s s' Hinv St).
+Qed.
+
+(* on every pattern without two backslashes in a row in which each \p{Is is followed by a table
+   name that the lookup resolves to itself and by '}', the text handed to PCRE2 is the intended one
+   (exact name, whole range, brackets kept iff the properly tracked bracket depth is 0) *)
+Theorem rewrite_eq_spec p :
+  has_sub bs2 p = false -> blocks_exact p = true -> rewrite p = rewrite_spec p.
+Proof.
+  intros Hbs Hbe. unfold rewrite, rewrite_spec.
+  destruct (esc_pass 0 false p) as [q|e] eqn:E; [|reflexivity].
+  cbn [bind]. apply chblocks_eq_spec. split.
+  - rewrite <- has_sub_bs2_zero. apply (esc_pass_no_bs2 p 0 0 false q eq_refl); [exact Hbs|exact E].
+  - rewrite (ins_blocks_exact _ _ (esc_pass_ins _ _ _ _ E)). exact Hbe.
 Qed.
 
 (* ---- list of patterns with invert-match ----------------------------------------------------------- *)
